@@ -30,31 +30,40 @@ def rule_control(facts):
     r.need("Lzma2Decoder::decompress and parse_lzma", d is not None and p is not None)
     if d is None or p is None:
         return r
-    gs, tm = pat.guards(d)
+    from engine.flow import PosTerms
     c = cfg(d)
-    vals = {}
-    for (bb, t, z, nz) in gs:
-        s = pat.cmp_sides(t)
-        if s and s[0] == "Eq" and pat.has_call(s[1], "read_u8") and s[2][0] == "const":
-            vals[s[2][1]] = (bb, z, nz)
+    ptd = PosTerms(d)
     r.sites = 2
-    if set(vals) >= {0, 1, 2}:
-        r.ok("dispatch", {"status tests": sorted(vals)})
-    else:
-        r.bad("decompress|dispatch", "the chunk loop does not test status against 0, 1 and 2 (found %s)" % sorted(vals), pat.where(d))
-        return r
-    # the remaining edge (status not in {0,1,2}) must reach parse_lzma and no uncompressed-chunk call
-    last = vals[2]
-    rest = c.reachable_from(last[1])
     callsp = [blk.idx for blk in d.calls() if (flow.callee(blk.term) or "").endswith("parse_lzma")]
     callsu = [blk.idx for blk in d.calls() if (flow.callee(blk.term) or "").endswith("parse_uncompressed")]
-    loops = c.loops()
-    head = loops[-1][0] if loops else None
-    direct = c.reachable_from(last[1], avoid=[head] if head is not None else [])
-    if callsp and any(x in direct for x in callsp) and not any(x in direct for x in callsu):
+    reads = [blk.idx for blk in d.calls() if (flow.declared(blk.term) or "").endswith("read_u8") and c.loop_blocks_of(blk.idx)]
+    r.need("status read, parse_lzma and parse_uncompressed calls in the chunk loop", bool(callsp and callsu and len(reads) == 1))
+    if not (callsp and callsu and len(reads) == 1):
+        return r
+    loop = c.loop_blocks_of(reads[0])
+    heads = {h for h, blocks, _ in c.loops() if reads[0] in blocks}
+    exits = {y for x in loop for y in c.succ[x] if y not in loop}
+    stops = set(callsp) | set(callsu) | exits
+
+    def leaf_of(v):
+        def lf(q):
+            if pat.has_call(q, "read_u8") and q[0] in ("ok", "okp", "try", "call", "cast"):
+                return v
+            raise pat.NotEvaluable(q)
+        return lf
+    wrong = None
+    for v in range(256):
+        got = pat.reached_under(d, ptd, d.blocks[reads[0]].term.target, leaf_of(v), stops, avoid=heads)
+        kinds = {"lzma" if x in callsp else "uncompressed" if x in callsu else "end" for x in got}
+        want = {"end"} if v == 0 else {"uncompressed"} if v in (1, 2) else {"lzma"}
+        if kinds != want:
+            wrong = (v, sorted(kinds), sorted(want))
+            break
+    if wrong is None:
+        r.ok("dispatch", {"status": "0 -> end, 1/2 -> uncompressed chunk, everything else -> parse_lzma (walk under each of the 256 values)"})
         r.ok("path", {"other status values": "handled by parse_lzma only"})
     else:
-        r.bad("decompress|other-status", "status values other than 0/1/2 are not handed to the LZMA chunk parser alone", pat.where(d))
+        r.bad("decompress|dispatch", "control byte 0x%02x is dispatched to %s, the format says %s" % wrong, pat.where(d))
     # parse_lzma: the 0x80 test
     gs2, tm2 = pat.guards(p)
     c2 = cfg(p)
